@@ -1436,8 +1436,10 @@ def work_C15(run, rng, budget):
 def c16_inputs(run, rng, budget):
     # the ends of the documented seed range [0, 1)
     for seed in (0.0, 0.5, 0.9999999999999999, 1e-300):
-        for _ in range(2):
-            m = G.gen_mol(rng, max_n=9)
+        for _ in range(4):
+            m = G.gen_mol(rng, max_n=10)
+            while m.n() < 6:      # large enough that two different generator states give two different permutations
+                m = G.gen_mol(rng, max_n=10)
             sizes(run, m)
             yield m, mol_graph(m), seed
     for m in molecules(run, rng, 100 * budget, max_n=14):
